@@ -8,6 +8,9 @@ pub mod c06;
 pub mod c07;
 pub mod c08;
 pub mod c09;
+pub mod c11;
+pub mod c14;
+pub mod c15;
 
 pub fn configs(prop: &str, tier: Tier) -> Option<Vec<Box<dyn Config>>> {
     Some(match prop {
@@ -16,8 +19,11 @@ pub fn configs(prop: &str, tier: Tier) -> Option<Vec<Box<dyn Config>>> {
         "C06" => c06::configs(tier),
         "C07" => c07::configs(tier),
         "C08" => c08::configs_c08(tier),
+        "C11" => c11::configs(tier),
         "C12" => c08::configs_c12(tier),
         "C13" => c08::configs_c13(tier),
+        "C14" => c14::configs(tier),
+        "C15" => c15::configs(tier),
         "C09" => c09::configs_c09(tier),
         "C10" => c09::configs_c10(tier),
         _ => return None,
